@@ -47,6 +47,20 @@ def build():
     return common.build_cli()
 
 
+# an image that stores a pattern into every word from 40 to 199999 and exits: run first in the same process, it leaves
+# whatever the simulator keeps between simulations as dirty as it can be
+DIRTY_ASM = ("BR start\nDATA 150000\nptr\nDATA 199999\nlim\nDATA 40\nstart\nloop\nLDBM ptr\nLDAC 1515870810\nSTAI 0\nLDAM ptr\nLDBC 1\n"
+             "OPR SUB\nSTAM ptr\nLDBM lim\nOPR SUB\nBRN done\nBR loop\ndone\nLDAC 0\nLDBM 1\nSTAI 2\nLDAC 0\nOPR SVC\n")
+
+
+def dirty_image():
+    hasm = common.build_cxx("h_asm", ["h_asm.cpp", "repo:hex.cpp"])
+    r = common.run_harness(hasm, [(0, {"src": DIRTY_ASM})], args=["cases"], tag="c12d")["0"]
+    if r["status"] != "ok" or not r["out"] or not r["out"].get("ok"):
+        raise common.HarnessError("the memory-dirtying image does not assemble: %r" % (r,))
+    return common.unhex(r["out"]["file"])
+
+
 def asm_rbw(rnd):
     k1 = rnd.choice([rnd.randrange(100, 199990), 199999, 150000, 1000])
     k2 = rnd.choice([rnd.randrange(100, 199990), 199998, 777])
@@ -219,6 +233,7 @@ def run(tier, replay=None):
     v.count("images", len(imgs))
     # ---- (b) in-process, dirty storage, lock-step against zero-memory reference
     fills = [0, 255, 165, 256]
+    dirty = dirty_image()
     cases, meta = [], []
     for i, (tag, blob, inp, kind, files) in enumerate(imgs):
         for f in fills:
@@ -230,6 +245,14 @@ def run(tier, replay=None):
                     fields["fin%d" % k] = data
                 cases.append((len(cases), fields))
                 meta.append((i, f, trace, mc))
+        if kind != "loop":
+            # the same image after another simulation in the same process
+            fields = {"file": blob, "input": inp, "fill": 0, "fillseed": 1, "maxcycles": 0, "trace": 0,
+                      "hardlimit": 60000 if ":cut" in tag else 400000, "prefile": dirty, "preinput": b""}
+            for k, data in files.items():
+                fields["fin%d" % k] = data
+            cases.append((len(cases), fields))
+            meta.append((i, "after-another-simulation", 0, 0))
     res = common.run_harness(hsim, cases, args=["cases"], tag="c12", timeout=6 * 3600)
     groups = {}
     rbw_total = 0
@@ -250,7 +273,7 @@ def run(tier, replay=None):
         rbw_total += o["reads_before_write"]
         if o["ended"] == "mismatch":
             # with clean (zero) storage a divergence cannot come from uninitialised memory
-            key = "inproc:unwritten-memory-not-zero" if fill != 0 else ("inproc:tracing-changes-state" if trace else "inproc:diverges-from-reference")
+            key = "inproc:unwritten-memory-not-zero" if fill not in (0, "after-another-simulation") else "inproc:depends-on-earlier-simulation" if fill != 0 else ("inproc:tracing-changes-state" if trace else "inproc:diverges-from-reference")
             v.violation(key, {"image": tag, "fill": fill, "trace": trace, "mismatch": o["mismatch"],
                               "reads_before_write": o["reads_before_write"]})
             continue
